@@ -56,7 +56,7 @@ def _numbagg_wrapper(
             if np.issubdtype(array.dtype, from_):
                 array = array.astype(to_, copy=False)
 
-    if dtype is not None and func in FILLNA and array.dtype.kind in "iub":
+    if dtype is not None and (func in FILLNA or func == "nansum_of_squares") and array.dtype.kind in "iub":
         # accumulate in the result dtype, not at the (possibly narrower) width of the input
         array = array.astype(dtype, copy=False)
 
